@@ -4,6 +4,7 @@ CONSTANTS
   MaxRec = 3
   MaxEp = 3
   FetchMax = 1
+  WideEvery = 0
   SlowTimeouts = TRUE
   ZombieSteals = FALSE
   MaxTick = 2
